@@ -38,6 +38,8 @@ vars == <<dH, dI, hp, tp, pend, head, tail, hs, up, wq, fin, live, deleted, last
 view == <<dH, dI, hp, tp, pend, head, tail, hs, up, wq, fin, live, deleted, dirty,
           IF fin.set \/ wq # <<>> THEN last ELSE 0>>   \* the running op is part of the state, the completed one is not
 
+viewD == <<view, nops>>    \* depth-indexed view: exploration within MaxOps does not depend on search order
+
 Hs == 1..N
 Max(a, b) == IF a >= b THEN a ELSE b
 Range(s) == {s[i] : i \in DOMAIN s}
@@ -219,15 +221,18 @@ Begin(rec, m, ws) ==
   /\ last' = [rec EXCEPT !.ws = ws]
   /\ UNCHANGED <<dH, dI, hp, tp, pend, head, tail, hs, up, nops, hist, dirty>>
 
+MaxStored == IF dH = {} THEN 0 ELSE CHOOSE m \in dH : \A x \in dH : x <= m
+
 AppendOp(b) ==
   /\ Idle
+  /\ dirty => (MaxStored + 2 <= N /\ b = <<MaxStored + 1, MaxStored + 2>>)
   /\ LET r == FlushResult(St, b) IN
      /\ Begin([NoLast EXCEPT !.op = "append", !.b = b], r.mem, r.ws)
      /\ live' = live \cup Range(b)
      /\ deleted' = deleted \ Range(b)
 
 DeleteOp(from, to, failAt) ==
-  /\ Idle
+  /\ Idle /\ ~dirty
   /\ LET r == DelResult(St, from, to, failAt) IN
      /\ Begin([NoLast EXCEPT !.op = "delete", !.from = from, !.to = to, !.failAt = failAt,
                              !.res = r.res, !.calls = r.calls, !.gone = r.gone, !.kind = r.kind], r.mem, r.ws)
@@ -286,7 +291,7 @@ Crash ==
   /\ wq' = <<>> /\ fin' = [fin EXCEPT !.set = FALSE]
   /\ live' = live \cap dH
   /\ deleted' = IF (wq # <<>> \/ fin.set) /\ last.op = "delete" THEN deleted \ last.gone ELSE deleted  \* that call never returned
-  /\ dirty' = (dirty \/ (wq # <<>> /\ last.op = "delete" /\ last.kind = "head" /\ ~Ctx))
+  /\ dirty' = TRUE      \* from here on only what C06 promises is explored: Start, then the continuation of the chain
   /\ last' = [NoLast EXCEPT !.op = "crash"]
   /\ nops' = nops + 1
   /\ hist' = Append(hist, [op |-> [NoLast EXCEPT !.op = "crash"], proj |-> Proj([St EXCEPT !.pend = {}, !.head = 0, !.tail = 0, !.hs = 0]),
@@ -308,9 +313,8 @@ Quiet == up /\ wq = <<>> /\ ~fin.set
 P == Proj(St)
 
 \* C04 (a) Tail <= Head and the whole range is readable by height and by hash
-\* (known finding KF-C06-headdel: a crash in the middle of a head-side delete on a plain datastore)
 C04_RangeReadable ==
-  Quiet /\ head # 0 /\ tail # 0 /\ ~(dirty /\ "KF-C06-headdel" \in Known) =>
+  Quiet /\ head # 0 /\ tail # 0 =>
      tail <= head /\ \A h \in tail..head : Readable(St, h) /\ ByHash(St, h)
 \* C04 (b) every appended and not deleted header is readable wherever it sits
 C04_LiveReadable == Quiet => \A h \in live : Readable(St, h) /\ ByHash(St, h)
@@ -325,6 +329,9 @@ C08_Pointers == Quiet /\ head # 0 /\ tail # 0 => Readable(St, head) /\ Readable(
 \* C06 on-disk pointers never dangle at a quiescent point and agree with memory once everything is flushed
 C06_DiskPointers == Quiet /\ hp # 0 => hp \in dH \/ hp \in pend
 C06_DiskTail     == Quiet /\ tp # 0 => tp \in dH \/ tp \in pend
+\* C06: after recovery, appending the continuation of the chain brings Head to the new tip
+C06_ContinuationAdvances ==
+  Quiet /\ dirty /\ last.op = "append" => head = last.b[2]
 PendImpliesInit  == pend # {} => head # 0 /\ tail # 0
 
 \* action properties about the operation that completes in this step (checked on every edge)
@@ -333,7 +340,9 @@ Finishing == wq = <<>> /\ fin.set /\ ~fin'.set /\ up' = up
 \* C08: a range that is not a tail-prefix, head-suffix or the whole chain is rejected without any effect
 C08_RejectsOthers ==
   [][Finishing /\ last.op = "delete" /\ last.kind \notin {"wipe", "tail", "head"} =>
-       last.res = "err" /\ UNCHANGED <<head, tail, hs>>
+       \* (the Sync it starts with may complete a deferred advanceHead, e.g. after crash recovery — nothing else)
+       last.res = "err" /\ tail' = tail /\ (head' = head \/ (head' > head /\ \A h \in head..head' : Readable(St, h)))
+       /\ (head' = head => hs' = hs)
        /\ \A h \in Hs : (Readable(St, h) <=> Readable(fin.mem, h)) /\ (ByHash(St, h) <=> ByHash(fin.mem, h))]_vars
 \* C08: every header outside the range is untouched, whatever the outcome
 C08_OutsideUntouched ==
